@@ -17,36 +17,7 @@ use std::sync::atomic::Ordering::SeqCst;
 use std::sync::{Arc, Mutex};
 
 pub use super::ilv::Finding;
-
-/// Everything observed along one executed history.
-pub struct SeqRun {
-    pub setup: Setup,
-    pub ops: Vec<Op>,
-    pub calls: Vec<Call>,
-    /// status of the acknowledgement of call i after quiescence (None for non-writes / Err)
-    pub statuses: Vec<Option<CommandStatus>>,
-    /// obs[0] = fresh cache, obs[i+1] = after step i
-    pub obs: Vec<Obs>,
-    pub events_per_step: Vec<Vec<world::Event>>,
-}
-
-impl SeqRun {
-    pub fn last(&self) -> usize {
-        self.ops.len() - 1
-    }
-    pub fn before(&self) -> &Obs {
-        &self.obs[self.obs.len() - 2]
-    }
-    pub fn after(&self) -> &Obs {
-        &self.obs[self.obs.len() - 1]
-    }
-    pub fn after_or_initial(&self) -> &Obs {
-        &self.obs[self.obs.len() - 1]
-    }
-    pub fn history(&self) -> Vec<String> {
-        self.calls.iter().enumerate().map(|(i, c)| format!("{} -> {}{}", c.op.short(), res_short(&c.res), self.statuses[i].map(|s| format!(" / {}", status_short(&s))).unwrap_or_default())).collect()
-    }
-}
+pub use super::seqcore::*;
 
 pub type SeqOracle = Arc<dyn Fn(&SeqRun, &mut Vec<Finding>) + Send + Sync>;
 
@@ -73,89 +44,6 @@ pub struct SeqSpec {
     pub time_cap_s: f64,
 }
 
-fn quiesce(env: &Env, shutdown_seen: bool) {
-    world::wait_commands_acked();
-    let n = env.ticks_sent.load(SeqCst);
-    world::wait_event("sweep_done", n);
-    if !shutdown_seen {
-        let cache = env.cache.clone();
-        world::wait_until_labelled(
-            move |w| {
-                let applied: i64 = w.events.iter().filter(|e| e.kind == "batch_applied").map(|e| e.data[0]).sum();
-                let added = cache.stats_summary().get(&crate::cache::stats::StatsType::AccessAdded).unwrap_or(0) as i64;
-                applied >= added
-            },
-            "access-batches",
-            |_| "buffers were delivered to the access-count consumer but it never applied them".to_string(),
-        );
-    }
-}
-
-/// Execute one history on a fresh cache (inside a shuttle execution).
-pub fn execute(setup: Setup, wcfg: WorldCfg, ops: &[Op]) -> SeqRun {
-    world::reset(wcfg);
-    let env = Env::new(setup);
-    let mut ctx = ThreadCtx::new(0);
-    let mut obs = vec![observe(&env)];
-    let mut events_per_step = Vec::new();
-    let mut shutdown_seen = false;
-    for (i, op) in ops.iter().enumerate() {
-        let mark = world::with(|w| w.events.len());
-        ctx.exec(&env, i, op);
-        if matches!(op, Op::Shutdown) {
-            shutdown_seen = true;
-        }
-        quiesce(&env, shutdown_seen);
-        obs.push(observe(&env));
-        events_per_step.push(world::with(|w| w.events[mark..].to_vec()));
-    }
-    let statuses: Vec<Option<CommandStatus>> = (0..ops.len()).map(|i| ctx.acks.iter().find(|(c, _)| *c == i).map(|(_, a)| peek_status(a))).collect();
-    let run = SeqRun { setup, ops: ops.to_vec(), calls: ctx.calls.clone(), statuses, obs, events_per_step };
-    drop(ctx);
-    env.teardown();
-    world::finish();
-    run
-}
-
-/// Canonical form of a quiescent state (DESIGN 3.4): ids renamed by rank, value tokens replaced by
-/// the ordinal of the write (to that key) that produced them, stats dropped.
-pub fn canon(run: &SeqRun, upto: usize, keys: &[K], sketch: bool) -> String {
-    let o = &run.obs[upto];
-    let mut ids: Vec<u64> = o.store.iter().map(|e| e.2).chain(o.weights.iter().map(|w| w.0)).chain(o.ttl.iter().map(|t| t.1)).collect();
-    ids.sort();
-    ids.dedup();
-    let rank = |id: u64| ids.iter().position(|x| *x == id).unwrap();
-    let val = |k: K, v: V| -> String {
-        let mut n = 0;
-        for c in run.calls.iter().take(upto) {
-            if c.op.key() == Some(k) && c.value.is_some() {
-                n += 1;
-                if c.value == Some(v) {
-                    return format!("w{}", n);
-                }
-            }
-        }
-        format!("?{}", v)
-    };
-    let mut s = format!("t{};", o.now_ms - T0_MS);
-    for (k, v, id, e, d) in &o.store {
-        s.push_str(&format!("S{}={}#{}@{:?}{};", k, val(*k, *v), rank(*id), e.map(|e| e - T0_MS), if *d { "d" } else { "" }));
-    }
-    for (id, k, h, w) in &o.weights {
-        s.push_str(&format!("W#{}:{}h{}w{};", rank(*id), k, h, w));
-    }
-    s.push_str(&format!("U{};", o.weight_used));
-    for (sh, id, e) in &o.ttl {
-        s.push_str(&format!("T{}#{}@{};", sh, rank(*id), e - T0_MS));
-    }
-    let _ = keys;
-    if sketch {
-        s.push_str(&format!("B{:?};I{};", o.buffered, o.lfu_total_increments));
-        s.push_str(&format!("E{:?}", o.estimates));
-    }
-    s
-}
-
 fn to_violation(f: Finding, run: &SeqRun) -> Violation {
     Violation {
         clause: f.clause,
@@ -164,6 +52,26 @@ fn to_violation(f: Finding, run: &SeqRun) -> Violation {
         replay: json!({"kind": "history", "ops": run.ops.iter().map(op_to_json).collect::<Vec<_>>(), "history": run.history()}),
         cost: run.ops.len(),
     }
+}
+
+/// Conformance traces (MC_DUMP_DIR set): every executed history up to MC_DUMP_DEPTH with what this backend
+/// observed, to be replayed by the `native` backend on the real crates.
+static DUMP: Mutex<Vec<String>> = Mutex::new(Vec::new());
+
+fn dump_depth() -> Option<usize> {
+    std::env::var("MC_DUMP_DIR").ok()?;
+    Some(std::env::var("MC_DUMP_DEPTH").ok().and_then(|s| s.parse().ok()).unwrap_or(4))
+}
+
+fn flush_dump(name: &str) -> u64 {
+    let lines: Vec<String> = std::mem::take(&mut *DUMP.lock().unwrap());
+    let n = lines.len() as u64;
+    if let Ok(dir) = std::env::var("MC_DUMP_DIR") {
+        let _ = std::fs::create_dir_all(&dir);
+        let file: String = name.chars().map(|c| if c.is_ascii_alphanumeric() { c } else { '_' }).collect();
+        let _ = std::fs::write(format!("{}/{}.jsonl", dir, file), lines.join("\n") + "\n");
+    }
+    n
 }
 
 struct ItemOut {
@@ -244,6 +152,7 @@ pub fn search(spec: &SeqSpec, workers: usize) -> ScenarioResult {
     }
     let _ = nondet_prefixes;
     nondet_prefixes = 0;
+    let dumped = flush_dump(&spec.name);
     let g = col.0.lock().unwrap();
     ScenarioResult {
         name: spec.name.clone(),
@@ -254,6 +163,7 @@ pub fn search(spec: &SeqSpec, workers: usize) -> ScenarioResult {
             "alphabet": spec.alphabet.iter().map(|o| o.short()).collect::<Vec<_>>(),
             "depth": spec.depth,
             "nondeterministic_prefixes": nondet_prefixes,
+            "conformance_traces_written": dumped,
         }),
         evaluations: transitions + 1,
         states: seen.len() as u64,
@@ -327,6 +237,11 @@ fn run_items(spec: &SeqSpec, items: &[Vec<Op>], col: &Collector, workers: usize,
                             }
                         }
                         col2.evaluated();
+                        if let Some(d) = dump_depth() {
+                            if ops.len() <= d && nf == 0 {
+                                DUMP.lock().unwrap().push(trace_line(&run).to_string());
+                            }
+                        }
                         if !ops.is_empty() {
                             let c = run.calls.last().unwrap();
                             col2.outcome(format!("{}=>{}", c.op.short(), res_short(&c.res)));
@@ -402,68 +317,3 @@ pub fn seq_scenario(spec_of: impl Fn(&Ctx) -> SeqSpec + Send + Sync + Clone + 's
     }
 }
 
-// ------------------------------------------------------------------------------------------------
-// Op <-> JSON
-// ------------------------------------------------------------------------------------------------
-fn variant_name(v: ReadVariant) -> &'static str {
-    match v {
-        ReadVariant::Get => "get",
-        ReadVariant::GetRef => "get_ref",
-        ReadVariant::MapGet => "map_get",
-        ReadVariant::MapGetRef => "map_get_ref",
-        ReadVariant::MultiGet => "multi_get",
-        ReadVariant::MultiGetIterator => "multi_get_iterator",
-        ReadVariant::MultiGetMapIterator => "multi_get_map_iterator",
-    }
-}
-fn variant_from(s: &str) -> Result<ReadVariant, String> {
-    ALL_READ_VARIANTS.iter().copied().find(|v| variant_name(*v) == s).ok_or_else(|| format!("unknown read variant {}", s))
-}
-
-pub fn op_to_json(op: &Op) -> Value {
-    match op {
-        Op::Put { k, w, ttl_ms } => json!({"op": "put", "k": k, "w": w, "ttl_ms": ttl_ms}),
-        Op::ProbedPut { k, w, ttl_ms } => json!({"op": "probed_put", "k": k, "w": w, "ttl_ms": ttl_ms}),
-        Op::Upsert { k, value, w, ttl_ms, remove_ttl } => json!({"op": "upsert", "k": k, "value": value, "w": w, "ttl_ms": ttl_ms, "remove_ttl": remove_ttl}),
-        Op::Delete { k } => json!({"op": "delete", "k": k}),
-        Op::Read { k, variant } => json!({"op": "read", "k": k, "variant": variant_name(*variant)}),
-        Op::MultiRead { keys, variant } => json!({"op": "multi_read", "keys": keys, "variant": variant_name(*variant)}),
-        Op::ReadAll { keys } => json!({"op": "read_all", "keys": keys}),
-        Op::Await { call } => json!({"op": "await", "call": call}),
-        Op::AwaitAll => json!({"op": "await_all"}),
-        Op::Advance { ms } => json!({"op": "advance", "ms": ms}),
-        Op::Tick => json!({"op": "tick"}),
-        Op::TickWait => json!({"op": "tick_wait"}),
-        Op::Shutdown => json!({"op": "shutdown"}),
-        Op::TotalWeight => json!({"op": "total_weight"}),
-        Op::WaitFlag { flag } => json!({"op": "wait_flag", "flag": flag}),
-        Op::RaiseFlag { flag } => json!({"op": "raise_flag", "flag": flag}),
-        Op::Quiesce => json!({"op": "quiesce"}),
-    }
-}
-
-pub fn op_from_json(v: &Value) -> Result<Op, String> {
-    let k = || v["k"].as_u64().ok_or_else(|| "missing k".to_string());
-    let opt_i = |n: &str| v[n].as_i64();
-    let opt_u = |n: &str| v[n].as_u64();
-    Ok(match v["op"].as_str().unwrap_or("") {
-        "put" => Op::Put { k: k()?, w: opt_i("w"), ttl_ms: opt_u("ttl_ms") },
-        "probed_put" => Op::ProbedPut { k: k()?, w: opt_i("w"), ttl_ms: opt_u("ttl_ms") },
-        "upsert" => Op::Upsert { k: k()?, value: v["value"].as_bool().unwrap_or(false), w: opt_i("w"), ttl_ms: opt_u("ttl_ms"), remove_ttl: v["remove_ttl"].as_bool().unwrap_or(false) },
-        "delete" => Op::Delete { k: k()? },
-        "read" => Op::Read { k: k()?, variant: variant_from(v["variant"].as_str().unwrap_or(""))? },
-        "multi_read" => Op::MultiRead { keys: v["keys"].as_array().map(|a| a.iter().filter_map(|x| x.as_u64()).collect()).unwrap_or_default(), variant: variant_from(v["variant"].as_str().unwrap_or(""))? },
-        "read_all" => Op::ReadAll { keys: v["keys"].as_array().map(|a| a.iter().filter_map(|x| x.as_u64()).collect()).unwrap_or_default() },
-        "await" => Op::Await { call: v["call"].as_u64().unwrap_or(0) as usize },
-        "await_all" => Op::AwaitAll,
-        "advance" => Op::Advance { ms: v["ms"].as_u64().unwrap_or(0) },
-        "tick" => Op::Tick,
-        "tick_wait" => Op::TickWait,
-        "shutdown" => Op::Shutdown,
-        "total_weight" => Op::TotalWeight,
-        "wait_flag" => Op::WaitFlag { flag: v["flag"].as_u64().unwrap_or(0) as usize },
-        "raise_flag" => Op::RaiseFlag { flag: v["flag"].as_u64().unwrap_or(0) as usize },
-        "quiesce" => Op::Quiesce,
-        o => return Err(format!("unknown op {}", o)),
-    })
-}
